@@ -380,6 +380,43 @@ func TestC18_WalletLock(t *testing.T) {
 					t.Fatalf("entry %s of the unlocked wallet is inconsistent: %v", e.Address, err)
 				}
 			}
+			// that unlock re-encrypted the secrets of the locked wallet (the new keys were added): the same password must
+			// keep working, on the wallet itself and on its serialised form after a reload, and give the same entries
+			again, err := w.Unlock(pw)
+			if err != nil {
+				t.Fatalf("bip44 wallet (%s) that grew while locked: the second Unlock with the same password fails: %v", ct, err)
+			}
+			ae, _ := again.GetEntries()
+			if fmt.Sprint(ae) != fmt.Sprint(te) {
+				t.Fatalf("second unlock of the grown wallet gives other entries")
+			}
+			if lb, err := w.Serialize(); err != nil {
+				t.Fatalf("Serialize: %v", err)
+			} else {
+				for _, sct := range secretsOf(again) {
+					if strings.Contains(string(lb), sct) {
+						t.Fatalf("the grown, still locked bip44 wallet serialises the secret %q", sct)
+					}
+				}
+				gdir := hx.TempDir("c18grown")
+				gfn := filepath.Join(gdir, "grown.wlt")
+				if err := os.WriteFile(gfn, lb, 0600); err != nil {
+					t.Fatal(err)
+				}
+				rl, err := wallet.Load(gfn)
+				os.RemoveAll(gdir)
+				if err != nil {
+					t.Fatalf("the grown locked wallet does not load from its serialised form (%s): %v", ct, err)
+				}
+				ru, err := rl.Unlock(pw)
+				if err != nil {
+					t.Fatalf("bip44 wallet (%s) that grew while locked: Unlock after a reload fails with the same password: %v", ct, err)
+				}
+				re, _ := ru.GetEntries()
+				if fmt.Sprint(re) != fmt.Sprint(te) {
+					t.Fatalf("unlock after reload of the grown wallet gives other entries")
+				}
+			}
 			r.Count("bip44_grew_while_locked")
 		}
 		r.Count("wallet_" + string(kind) + "_" + string(ct))
@@ -415,7 +452,7 @@ func normalizeWalletJSON(b []byte) []byte {
 // small case count); everything the property says about lock / unlock must hold for it as well.
 func TestC18_LegacyMetaWallets(t *testing.T) {
 	r := ev.Get("C18")
-	hx.Check(t, "C18", 1, 12, func(t *rapid.T) {
+	hx.Check(t, "C18", 1, 2, func(t *rapid.T) {
 		seed := rapid.IntRange(0, 50).Draw(t, "seed")
 		n := rapid.IntRange(1, 3).Draw(t, "n")
 		pw := []byte(rapid.StringOfN(rapid.RuneFrom(nil, &asciiRange), 1, 10, -1).Draw(t, "pw"))
